@@ -269,8 +269,8 @@ def is_success_cond(c):
     """a path condition selecting the Ok/Some/normal outcome of a fallible step"""
     if len(c) == 3:
         scrut, ty, rs = c
-        if scrut[0] == "discr" and scrut[1][0] == "call" and rs == ((0, 0),):
-            return True                      # Result::Ok (discriminant 0) of a call
+        if scrut[0] == "discr" and scrut[1][0] in ("call", "seq") and rs == ((0, 0),):
+            return True                      # Result::Ok (discriminant 0) of a call, or of a chain collected into a Result
         if scrut[0] == "loopexit" and rs == ((0, 0),):
             return True                      # inner loop left through its normal exit
     return False
